@@ -160,6 +160,21 @@ class MinFlowDecompCycles(walkmodel.AbstractWalkModelDiGraph):
 
         self.flow_attr = flow_attr
         self.weight_type = weight_type
+
+        # As documented, the flow must be conserved at every node having both incoming and outgoing edges
+        # (additional starts/ends excepted). This is required only when no edge is ignored.
+        if len(self.edges_to_ignore) == 0:
+            for v in self.G.nodes():
+                if v in self.additional_starts or v in self.additional_ends:
+                    continue
+                if self.G.in_degree(v) == 0 or self.G.out_degree(v) == 0:
+                    continue
+                in_values = [data.get(flow_attr) for _, _, data in self.G.in_edges(v, data=True)]
+                out_values = [data.get(flow_attr) for _, _, data in self.G.out_edges(v, data=True)]
+                if any(value is None for value in in_values + out_values) or sum(in_values) != sum(out_values):
+                    utils.logger.error(f"{__name__}: The graph G does not satisfy flow conservation at node {v}, or some edges have missing `flow_attr`.")
+                    raise ValueError(f"The graph G does not satisfy flow conservation at node {v}, or some edges have missing `flow_attr`. This is an error, unless you passed `elements_to_ignore`.")
+
         self.subset_constraints_coverage = subset_constraints_coverage
         self.optimization_options = optimization_options
         self.solver_options = solver_options
